@@ -446,6 +446,18 @@ fn raw_script_in(t: &mut Tape, fmt: Fmt, timeline: bool, th06_std: bool, no_mask
     (out, req)
 }
 
+/// a metadata string around the capacity `cap` (bytes incl. terminator) of a fixed-size field: ASCII and double-byte text
+fn boundary_string(t: &mut Tape, cap: usize) -> String {
+    match t.below(8) {
+        0 | 1 | 2 => "a".to_string(),
+        3 => String::new(),
+        4 => "x".repeat(*t.pick(&[cap - 2, cap - 1, cap, cap + 1])),
+        5 => "\u{30a2}".repeat(*t.pick(&[cap / 2 - 1, cap / 2, cap / 2 + 1, cap - 1])),   // full-width kana: 2 bytes each
+        6 => format!("{}{}", "x".repeat(cap - 3), "\u{8868}"),                               // a double-byte character straddling the end
+        _ => "\u{ff71}".repeat(*t.pick(&[cap - 1, cap])),                                   // half-width kana: 1 byte each
+    }
+}
+
 pub struct C03File { pub text: String, pub scripts: Vec<Vec<ReqInstr>>, pub feats: Vec<String> }
 
 /// `many`: 0 = normal sizes; otherwise the number of objects / sprites / table entries / subs to emit (count-field boundaries).
@@ -483,7 +495,10 @@ pub fn gen_c03_file(t: &mut Tape, fmt: Fmt, game: &str, many: usize) -> C03File 
                 format!("        object{}: {{layer: {}, pos: [0.0, 0.0, 0.0], size: [1.0, 1.0, 1.0], quads: [{}]}}", i, u16b(t), quads.join(", "))
             }).collect();
             let insts: Vec<String> = (0..t.below(4)).map(|_| format!("object{} {{unknown: {}, pos: [1.0, 2.0, 3.0]}}", t.below(nobj.min(70000)), *t.pick(&[256i64, 0, 257, 65535, 65536]))).collect();
-            let head = if old { format!("    unknown: {},\n    stage_name: \"a\",\n    bgm: [{{path: \"a\", name: \"a\"}}, {{path: \"a\", name: \"a\"}}, {{path: \"a\", name: \"a\"}}, {{path: \"a\", name: \"a\"}}],\n", u32b(t)) } else { format!("    unknown: {},\n    anm_path: \"a\",\n", u32b(t)) };
+            let head = if old {
+                let bgm: Vec<String> = (0..4).map(|_| format!("{{path: {}, name: {}}}", fmt_str_lit(&boundary_string(t, 128)), fmt_str_lit(&boundary_string(t, 128)))).collect();
+                format!("    unknown: {},\n    stage_name: {},\n    bgm: [{}],\n", u32b(t), fmt_str_lit(&boundary_string(t, 128)), bgm.join(", "))
+            } else { format!("    unknown: {},\n    anm_path: {},\n", u32b(t), fmt_str_lit(&boundary_string(t, 128))) };
             let (body, req) = raw_script(t, fmt, false, old, false, 6);
             scripts.push(req);
             format!("meta {{\n{}    objects: {{\n{}\n    }},\n    instances: [{}],\n}}\n\nscript main {{\n{}}}\n", head, objs.join(",\n"), insts.join(", "), body)
@@ -506,8 +521,9 @@ pub fn gen_c03_file(t: &mut Tape, fmt: Fmt, game: &str, many: usize) -> C03File 
             let n = if many > 0 { many } else { 1 + t.below(3) };
             let mut out = String::new();
             for _ in 0..n {
-                if g == Game::Th095 { out.push_str(&format!("entry {{\n    stage: {},\n    scene: {},\n    face: {},\n    point: {},\n    text: [\"a\", \"b\", \"c\"],\n}}\n\n", u16b(t), u16b(t), u32b(t), u32b(t))); }
-                else { out.push_str(&format!("entry {{\n    stage: {},\n    scene: {},\n    player: {},\n    unknown_1: {},\n    unknown_2: {},\n    point_1: {},\n    point_2: {},\n    furigana: [[{}, {}], [0, 0], [3, 4]],\n    text: [\"a\", \"b\", \"c\", \"d\", \"e\", \"f\"],\n}}\n\n", u16b(t), u16b(t), u16b(t), u32b(t), u32b(t), u32b(t), u32b(t), u32b(t), u32b(t))); }
+                let lines: Vec<String> = (0..(if g == Game::Th095 { 3 } else { 6 })).map(|_| fmt_str_lit(&boundary_string(t, 64))).collect();
+                if g == Game::Th095 { out.push_str(&format!("entry {{\n    stage: {},\n    scene: {},\n    face: {},\n    point: {},\n    text: [{}],\n}}\n\n", u16b(t), u16b(t), u32b(t), u32b(t), lines.join(", "))); }
+                else { out.push_str(&format!("entry {{\n    stage: {},\n    scene: {},\n    player: {},\n    unknown_1: {},\n    unknown_2: {},\n    point_1: {},\n    point_2: {},\n    furigana: [[{}, {}], [0, 0], [3, 4]],\n    text: [{}],\n}}\n\n", u16b(t), u16b(t), u16b(t), u32b(t), u32b(t), u32b(t), u32b(t), u32b(t), u32b(t), lines.join(", "))); }
             }
             out
         }
